@@ -68,21 +68,15 @@ impl<'a> Display<'a> {
         }
 
         let dot = if it.peek().is_some() {
-            true
+            it.clone().any(|d| d != '0') || !rem.is_zero()
         } else {
             let remaining = self.spec.limit - used;
 
-            if remaining > 0 {
-                let mut it = emit(&mut rem, den);
-
-                for d in (&mut it).take(remaining) {
-                    fmt::Display::fmt(&d, f)?;
-                }
-
-                it.next().is_some()
-            } else {
-                false
+            for d in emit(&mut rem, den).take(remaining) {
+                fmt::Display::fmt(&d, f)?;
             }
+
+            !rem.is_zero()
         };
 
         if dot && self.spec.show_continuation {
@@ -156,10 +150,12 @@ impl fmt::Display for Display<'_> {
         let mut takes_exp = true;
         let mut n = self.spec.limit;
 
-        for d in emit(&mut rem, &den) {
-            if n == 0 {
+        let mut digits = emit(&mut rem, &den);
+
+        while n > 0 {
+            let Some(d) = digits.next() else {
                 break;
-            }
+            };
 
             if d.is_zero() && takes_exp {
                 exp -= 1;
@@ -196,6 +192,8 @@ impl fmt::Display for Display<'_> {
                 d.fmt(f)?;
             }
         }
+
+        drop(digits);
 
         if !rem.is_zero() && self.spec.show_continuation {
             f.write_char('…')?;
